@@ -82,7 +82,7 @@ def generate(repo, outdir):
             raise Unsupported("deletion scanner call %s %s %s" % (f2, a2, k2))
         if "if parameterized and self._d_value(candidate) != d_tag:\n" not in text or "d_tag = self._d_value(event) if parameterized else None" not in text:
             raise Unsupported("d value comparison changed")
-        if "if len(tag) > 1 and tag[0] == 'e':" not in text or "ids.add(bytes_from_hex(tag[1]))" not in text or "except ValueError:\n" not in text:
+        if "if len(tag) > 1 and tag[0] == 'e':" not in text or "ids.add(bytes_from_hex(tag[1]))" not in text or "except (ValueError, TypeError):\n" not in text:
             raise Unsupported("reference collection changed")
         return ("Definition replace_index : pystr := %s.\nDefinition replace_until_offset : Z := 0.\n"
                 "Definition delete_index : pystr := %s.\nDefinition delete_until_offset : Z := -1.\n"
